@@ -10,6 +10,7 @@
 import GoNeat.Proofs.ExpectedChain
 import GoNeat.Proofs.Exact
 import GoNeat.Spec.PopInv
+import Mathlib.Data.Rat.Floor
 
 namespace GoNeat.C09
 open GoNeat Scalar
@@ -207,14 +208,14 @@ theorem popMeanAdjusted_pos (o : EpochOpts K) (p : Pop K) (species1 : List (Spec
   have : 0 < p.organisms.length := List.length_pos_iff.mpr hne
   exact_mod_cast this
 
-omit [FloorRing K] in
+omit [FloorRing K] [LinearOrder K] [IsStrictOrderedRing K] in
 theorem foldl_add_eq_sum {α : Type} (f : α → K) (l : List α) (a : K) :
     l.foldl (fun acc y => acc + f y) a = a + (l.map f).sum := by
   induction l generalizing a with
   | nil => simp
   | cons y ys ih => simp only [List.foldl_cons, ih, List.map_cons, List.sum_cons]; ring
 
-omit [FloorRing K] in
+omit [FloorRing K] [LinearOrder K] [IsStrictOrderedRing K] in
 theorem sum_perm {a b : List K} (h : a.Perm b) : a.sum = b.sum := by
   induction h with
   | nil => rfl
@@ -364,5 +365,97 @@ theorem expectedWhy_model (o : EpochOpts K) (p p1 : Pop K) (ex : ExecState) (rs 
     exact hq s1 hs1 x hx1 s2 hs2 r hr2
 
 end KindB
+
+/-! ### non-vacuity: concrete populations over ℚ satisfy all hypotheses (both branches of the guard) -/
+section NonVacuity
+
+/-- `exactScalar ℚ` with the comparisons decided by ℚ's own order instead of classical choice, so that the kernel can
+    evaluate the model; it is the same instance (`ratScalar_eq`) -/
+@[instance_reducible] noncomputable def ratScalar : Scalar ℚ :=
+  { exactScalar ℚ with
+    lt := fun a b => decide (a < b), le := fun a b => decide (a ≤ b), eq := fun a b => decide (a = b),
+    f32Ge03 := fun x => decide ((3 : ℚ) / 10 ≤ x) }
+
+theorem ratScalar_eq : exactScalar ℚ = ratScalar := by
+  unfold exactScalar ratScalar
+  congr
+
+def qOpts : EpochOpts ℚ :=
+  { popSize := 3, dropOffAge := 15, ageSignificance := 1, survivalThresh := 1 / 2, babiesStolen := 0, compatThreshold := 3,
+    compat := { disjointCoeff := 1, excessCoeff := 1, mutdiffCoeff := 1, linear := true },
+    mutateOnlyProb := 1, mutateAddNodeProb := 1, mutateAddLinkProb := 1, mutateConnectSensors := 1,
+    interspeciesMateRate := 1, mateMultipointProb := 1, mateMultipointAvgProb := 1, mateSinglepointProb := 1,
+    mateOnlyProb := 1,
+    mopts := { recurOnlyProb := 0, newLinkTries := 3, activators := [4], activatorProbs := [1], traitMutationPower := 0,
+               traitParamMutProb := 0, weightMutPower := 0, mutateRandomTraitProb := 1, mutateLinkTraitProb := 1,
+               mutateNodeTraitProb := 1, mutateLinkWeightsProb := 1, mutateToggleEnableProb := 1, mutateGeneReenableProb := 1 } }
+
+def qOrg (uid : Nat) (f : ℚ) : Org ℚ :=
+  { uid := uid, fitness := f, expectedOffspring := 7, generation := 0, originalFitness := 0, highestFitness := 0,
+    genome := { id := uid, traits := [⟨1, []⟩], nodes := [⟨1, Kind.input, 4, none⟩, ⟨2, Kind.output, 4, none⟩],
+                genes := [⟨1, 1, 2, false, 0, 0, true, none⟩] } }
+
+/-- two species (ids 1 and 4) with raw fitness values `f0, f2` and `f1`; organism list `[0, 1, 2]` -/
+def qPop (f0 f1 f2 : ℚ) : Pop ℚ :=
+  { species := [{ id := 1, age := 3, maxFitnessEver := 0, expectedOffspring := 0, isNovel := false, orgs := [qOrg 0 f0, qOrg 2 f2],
+                  ageOfLastImprovement := 0 },
+                { id := 4, age := 1, maxFitnessEver := 0, expectedOffspring := 0, isNovel := true, orgs := [qOrg 1 f1],
+                  ageOfLastImprovement := 0 }],
+    organisms := [0, 1, 2], lastSpecies := 4, highestFitness := 0, epochsHighestLastChanged := 0,
+    reg := { records := [], nextInn := 1, nextNode := 2 }, nextUid := 3 }
+
+/-- species id and quota of the result -/
+def quotasOf {W} (r : R (Pop W × ExecState)) : List (Int × Int) :=
+  match r with | .ok ((q, _), _) => q.species.map (fun (s : Species W) => (s.id, s.expectedOffspring)) | .error _ => []
+
+/-- (allocation id, fitness, original fitness, expected offspring) of the organisms left as parents -/
+def parentsOf {W} (r : R (Pop W × ExecState)) : List (Nat × W × W × W) :=
+  match r with | .ok ((q, _), _) => q.species.flatMap (fun (s : Species W) => s.orgs.map okey) | .error _ => []
+
+theorem ok_of_parents {W} (r : R (Pop W × ExecState)) (h : parentsOf r ≠ []) : ∃ p1 ex rs', r = .ok ((p1, ex), rs') := by
+  match r, h with
+  | .ok ((q, ex), rs'), _ => exact ⟨q, ex, rs', rfl⟩
+  | .error _, h => exact absurd rfl h
+
+/-- the hypotheses shared by all theorems of this file hold for `qPop` -/
+example (f0 f1 f2 : ℚ) : ((qPop f0 f1 f2).species.map (·.id)).Nodup ∧ C02.UidInv (qPop f0 f1 f2) ∧
+    (C02.orgUids (qPop f0 f1 f2).species).Nodup ∧ (qPop f0 f1 f2).organisms.Perm (C02.orgUids (qPop f0 f1 f2).species) :=
+  ⟨by simp [qPop], ⟨by simp [qPop, C02.orgUids, qOrg], by simp [qPop]⟩, by simp [qPop, C02.orgUids, qOrg],
+   by simp only [qPop, C02.orgUids, qOrg, List.flatMap_cons, List.flatMap_nil, List.map_cons, List.map_nil, List.cons_append,
+        List.nil_append, List.append_nil]
+      exact (List.Perm.swap 2 1 []).cons 0⟩
+
+/-- raw fitness 1, 5 (species 1, shared by two: 1/2, 5/2) and 3 (species 4): the preparation phase returns, the mean
+    is 2 ≠ 0, all three organisms stay parents with expected offspring 5/4, 1/4, 3/2 (quotas 1 and 2) — and the
+    executable predicate accepts the result (evaluated, independently of `expectedWhy_model`) -/
+example :
+    (∃ p1 ex rs', prepareForReproduction qOpts (qPop 1 3 5) [] = .ok ((p1, ex), rs')) ∧
+    popMeanAdjusted qOpts (qPop 1 3 5) = 2 ∧ Scalar.eq (popMeanAdjusted qOpts (qPop 1 3 5)) Scalar.zero = false ∧
+    0 < popMeanAdjusted qOpts (qPop 1 3 5) ∧
+    quotasOf (prepareForReproduction qOpts (qPop 1 3 5) []) = [(1, 1), (4, 2)] ∧
+    parentsOf (prepareForReproduction qOpts (qPop 1 3 5) []) = [(2, 5 / 2, 5, 5 / 4), (0, 1 / 2, 1, 1 / 4), (1, 3, 3, 3 / 2)] ∧
+    PopSpec.expectedWhy (match prepareForReproduction qOpts (qPop 1 3 5) [] with | .ok ((q, _), _) => q | .error _ => qPop 1 3 5) = "" := by
+  have hm : popMeanAdjusted qOpts (qPop 1 3 5) = 2 := by rw [ratScalar_eq]; decide +kernel
+  have hp : parentsOf (prepareForReproduction qOpts (qPop 1 3 5) []) = [(2, 5 / 2, 5, 5 / 4), (0, 1 / 2, 1, 1 / 4), (1, 3, 3, 3 / 2)] := by
+    rw [ratScalar_eq]; decide +kernel
+  refine ⟨ok_of_parents _ (by rw [hp]; simp), hm, ?_, by rw [hm]; norm_num, ?_, hp, ?_⟩
+  · rw [hm]; simp
+  · rw [ratScalar_eq]; decide +kernel
+  · rw [ratScalar_eq]; decide +kernel
+
+/-- all raw fitness values zero: the preparation phase returns, the mean is zero, the guard fires and every organism keeps
+    the (stale) expected offspring 7 it came with — the quotas are then computed from those stale values (14 and 7) -/
+example :
+    (∃ p1 ex rs', prepareForReproduction qOpts (qPop 0 0 0) [] = .ok ((p1, ex), rs')) ∧
+    Scalar.eq (popMeanAdjusted qOpts (qPop 0 0 0)) Scalar.zero = true ∧
+    quotasOf (prepareForReproduction qOpts (qPop 0 0 0) []) = [(1, 14), (4, 7)] ∧
+    parentsOf (prepareForReproduction qOpts (qPop 0 0 0) []) = [(0, 0, 0, 7), (2, 0, 0, 7), (1, 0, 0, 7)] := by
+  have hp : parentsOf (prepareForReproduction qOpts (qPop 0 0 0) []) = [(0, 0, 0, 7), (2, 0, 0, 7), (1, 0, 0, 7)] := by
+    rw [ratScalar_eq]; decide +kernel
+  refine ⟨ok_of_parents _ (by rw [hp]; simp), ?_, ?_, hp⟩
+  · rw [ratScalar_eq]; decide +kernel
+  · rw [ratScalar_eq]; decide +kernel
+
+end NonVacuity
 
 end GoNeat.C09
